@@ -1165,4 +1165,147 @@ theorem objInh_at_supersession {w : World} {o : Obj} (ho : o.gen = w.gens o.cls)
   | some e =>
     simp [defclassW, hfe, deadInh, ho, inhOf]
 
+/-! ## which initforms are evaluated (extension round 4) -/
+
+theorem initformFor_append (x : Name) : ∀ (a b : List SlotDef),
+    initformFor (a ++ b) x =
+      match initformFor a x with
+      | some v => some v
+      | none => initformFor b x
+  | [], b => by simp [initformFor]
+  | sd :: a, b => by
+    have ih := initformFor_append x a b
+    by_cases h : sd.name = x
+    · cases hf : sd.initform with
+      | some v => simp [initformFor, h, hf]
+      | none => simp [initformFor, h, hf, ih]
+    · simp [initformFor, h, ih]
+
+theorem slotDefsOf_cons (s : State) (k : Name) (ks : List Name) :
+    slotDefsOf s (k :: ks) = ownSlots s k ++ slotDefsOf s ks := rfl
+
+theorem initformFor_owner (s : State) (x : Name) : ∀ (p : List Name),
+    initformFor (slotDefsOf s p) x =
+      match formOwner s p x with
+      | some k => initformFor (ownSlots s k) x
+      | none => none
+  | [] => by simp [slotDefsOf, formOwner, initformFor]
+  | k :: ks => by
+    have ih := initformFor_owner s x ks
+    rw [slotDefsOf_cons, initformFor_append]
+    cases h : initformFor (ownSlots s k) x with
+    | some v => simp [formOwner, h]
+    | none => simp [formOwner, h, ih]
+
+theorem formOwner_some (s : State) (x : Name) : ∀ (p : List Name) (k : Name),
+    formOwner s p x = some k →
+    ∃ pre post, p = pre ++ k :: post ∧ (∀ k' ∈ pre, initformFor (ownSlots s k') x = none) ∧
+      (initformFor (ownSlots s k) x).isSome = true
+  | [], k, h => by simp [formOwner] at h
+  | j :: ks, k, h => by
+    unfold formOwner at h
+    by_cases hj : (initformFor (ownSlots s j) x).isSome = true
+    · rw [if_pos hj] at h
+      cases h
+      exact ⟨[], ks, rfl, by simp, hj⟩
+    · rw [if_neg hj] at h
+      obtain ⟨pre, post, hp, hpre, hk⟩ := formOwner_some s x ks k h
+      refine ⟨j :: pre, post, by simp [hp], ?_, hk⟩
+      intro k' hk'
+      cases List.mem_cons.1 hk' with
+      | inl e =>
+        subst e
+        cases hv : initformFor (ownSlots s k') x with
+        | none => rfl
+        | some v => simp [hv] at hj
+      | inr e => exact hpre k' e
+
+theorem formOwner_none (s : State) (x : Name) : ∀ (p : List Name),
+    formOwner s p x = none ↔ ∀ k ∈ p, initformFor (ownSlots s k) x = none
+  | [] => by simp [formOwner]
+  | j :: ks => by
+    have ih := formOwner_none s x ks
+    cases hv : initformFor (ownSlots s j) x with
+    | none => simp [formOwner, hv, ih]
+    | some v => simp [formOwner, hv]
+
+theorem ownSlots_congr {s1 s2 : State} (h : ∀ k, defOf s1 k = defOf s2 k) (k : Name) :
+    ownSlots s1 k = ownSlots s2 k := by simp [ownSlots, h k]
+
+theorem formOwner_congr {s1 s2 : State} (h : ∀ k, defOf s1 k = defOf s2 k) (x : Name) :
+    ∀ (p : List Name), formOwner s1 p x = formOwner s2 p x
+  | [] => rfl
+  | k :: ks => by simp [formOwner, ownSlots_congr h k, formOwner_congr h x ks]
+
+theorem filterMap_congr' {α β : Type} {f g : α → Option β} : ∀ {l : List α},
+    (∀ x ∈ l, f x = g x) → l.filterMap f = l.filterMap g
+  | [], _ => rfl
+  | x :: xs, h => by
+    have ih := filterMap_congr' (l := xs) (fun y hy => h y (List.mem_cons_of_mem _ hy))
+    simp [List.filterMap_cons, h x (List.mem_cons_self), ih]
+
+/-- the evaluated forms, slot by slot -/
+theorem evaluated_eq (sds : List SlotDef) (args : List (Name × Val)) :
+    evaluated sds args = (slotNames sds).filterMap (fun x =>
+      match args.find? (fun a => (initargsFor sds x).contains a.1) with
+      | some _ => none
+      | none => (initformFor sds x).map (fun v => (x, v))) := by
+  unfold evaluated blank
+  rw [applyArgs_map, List.map_map, List.filterMap_map]
+  apply filterMap_congr'
+  intro x _
+  simp only [Function.comp]
+  rw [foldl_stepCell_blank]
+  cases args.find? (fun a => (initargsFor sds x).contains a.1) with
+  | some a => simp [evalCell]
+  | none => simp [evalCell]
+
+theorem filterMap_fst_sublist {β : Type} (f : Name → Option (Name × β))
+    (hf : ∀ x y, f x = some y → y.1 = x) : ∀ (l : List Name),
+    ((l.filterMap f).map Prod.fst).Sublist l
+  | [] => by simp
+  | x :: xs => by
+    have ih := filterMap_fst_sublist f hf xs
+    cases h : f x with
+    | none => simpa [List.filterMap_cons, h] using ih.cons x
+    | some y =>
+      have : y.1 = x := hf x y h
+      simp only [List.filterMap_cons, h, List.map_cons, this]
+      exact ih.cons₂ x
+
+/-! ## histories with redefinitions: only the order of the forms of ONE class matters -/
+
+theorem foldl_update_congr (c : Name) : ∀ (l : List (Name × ClassDef)) (D1 D2 : Name → Option ClassDef),
+    D1 c = D2 c →
+    (l.foldl (fun D p => update D p.1 p.2) D1) c = (l.foldl (fun D p => update D p.1 p.2) D2) c
+  | [], _, _, h => h
+  | p :: l, D1, D2, h => by
+    simp only [List.foldl_cons]
+    apply foldl_update_congr c l
+    by_cases hc : c = p.1
+    · simp [update, hc]
+    · simp [update, hc, h]
+
+theorem foldl_update_filter (c : Name) : ∀ (l : List (Name × ClassDef)) (D : Name → Option ClassDef),
+    (l.foldl (fun D p => update D p.1 p.2) D) c =
+      ((l.filter (fun p => p.1 = c)).foldl (fun D p => update D p.1 p.2) D) c
+  | [], _ => rfl
+  | p :: l, D => by
+    by_cases hc : p.1 = c
+    · simp only [List.foldl_cons, List.filter_cons, hc, decide_true, if_true]
+      exact foldl_update_filter c l _
+    · simp only [List.foldl_cons, List.filter_cons, hc, decide_false]
+      rw [foldl_update_filter c l]
+      apply foldl_update_congr
+      have : ¬ c = p.1 := fun e => hc e.symm
+      simp [update, this]
+
+/-- the definitions in force depend, for every class, only on the sequence of that class's own forms -/
+theorem lastDef_eq_of_filter (h1 h2 : List (Name × ClassDef))
+    (hf : ∀ c, h1.filter (fun p => p.1 = c) = h2.filter (fun p => p.1 = c)) :
+    lastDef h1 = lastDef h2 := by
+  funext c
+  unfold lastDef
+  rw [foldl_update_filter c h1, foldl_update_filter c h2, hf c]
+
 end SlipVerif.Clos
